@@ -75,25 +75,24 @@ Example extract_tree_of_instance_by_theorem :
   extract_all ex_pf64 ex_pf32 ex_fdiv (tree_of ex_meta) = Ok (reader_view ex_meta).
 Proof. apply extract_tree_of_proof; vm_compute; reflexivity. Qed.
 
-(** * The two conjuncts of [record_name_ok] that the writer does not enforce are needed *)
-
-(** an extension attribute named "images2D": the images are lost *)
+(** * Extension attribute names *)
 Definition small_pc (records : list record) : pointcloud :=
   mkPointCloud (Some (B"pc")) 48 0 records None None None None None None None None None None None None None None None None None None None None.
-Definition bad_images2d : file_meta :=
+
+(** an extension attribute named "images2D" no longer hides the images (repaired in /repo by cec9560) *)
+Definition ext_images2d : file_meta :=
   mkFileMeta (mkRoot STD_FORMAT_NAME (B"g") 1 0 None None None)
     [mkExtension (B"ext") (B"urn:example:ext")]
     [small_pc [mkRecord (Unknown (B"ext") (B"images2D")) (DInteger 0 1)]]
     [mkImage (Some (B"img")) None None None None None None None None None None].
 
-Example images2d_record_loses_images :
-  meta_ok bad_images2d = false /\
-  forall pf64 pf32 fdiv, exists m',
-    extract_all pf64 pf32 fdiv (tree_of bad_images2d) = Ok m' /\
-    fm_pointclouds m' = fm_pointclouds bad_images2d /\ fm_images m' = [] /\ length (fm_images bad_images2d) = 1%nat.
-Proof. split; [reflexivity|]. intros. eexists. split; [vm_compute; reflexivity|]. repeat split. Qed.
+Example images2d_record_keeps_images :
+  meta_ok ext_images2d = true /\
+  forall pf64 pf32 fdiv, extract_all pf64 pf32 fdiv (tree_of ext_images2d) = Ok (reader_view ext_images2d).
+Proof. split; [reflexivity|]. intros. apply extract_tree_of_proof; reflexivity. Qed.
 
-(** an extension registered with the URL of the E57 namespace: <ext:cartesianX> comes back as the standard attribute *)
+(** the conjunct on the URL is needed: an extension with the URL of the E57 namespace (rejected by
+    the writer since e021335) would have <ext:cartesianX> read back as the standard attribute *)
 Definition bad_e57_url : file_meta :=
   mkFileMeta (mkRoot STD_FORMAT_NAME (B"g") 1 0 None None None)
     [mkExtension (B"ext") E57_URI]
